@@ -28,8 +28,8 @@ EXPLANATION = (
     "(chunks consecutive, disjoint, covering [0,n)) is proved from the __next__ contract by non-linear integer "
     "arithmetic. No bound on n, c or the number of chunks.")
 TRUSTED = []
-NOT_DECIDED = ["ParquetReader: a row group larger than the chunk is read whole by pyarrow.read_row_group (F27, inherent "
-               "in the Parquet API; listed as known finding, decided by the row-group contract)"]
+NOT_DECIDED = ["ParquetReader: a row group larger than the chunk is read whole by pyarrow.read_row_group (F27, inherent in the Parquet "
+               "API); the units prove that a group is requested only while less than a chunk is cached"]
 ASSUMPTIONS = ["single process (parallel.on_worker() is False); MPI branches are covered by C06"]
 
 P = "C18"
@@ -536,3 +536,285 @@ def _replay_pass(unit_name, case, w):
     expect = [(k * c, (k + 1) * c) for k in range((n + c - 1) // c)]
     ok = log == expect and np.array_equal(got, np.arange(n, dtype=float))
     return {"reproduced": not ok, "inputs": dict(n=n, chunksize=c), "observed_requests": log[:20], "expected": expect[:20]}
+
+
+# ---------------------------------------------------------------------------------------------------------
+# ParquetReader: row groups, cache of tables
+# ---------------------------------------------------------------------------------------------------------
+# ASSUMED pyarrow contracts: the file is a sequence of G row groups, group i = rows [gstart(i), gstart(i+1)), gstart(0) = 0,
+# gstart(G) = n; read_row_group(i) returns that table and raises ArrowException iff i >= G; concat_tables of adjacent tables is
+# their union; table[a:b] is the python slice of the rows; table.column(c).to_numpy() are the rows of column c.
+# The cache (a deque of tables) is abstracted to the row range it covers [lo, hi) and the number of tables k: popleft returns
+# *some* leading part of the range (the real group boundaries are one of the possibilities), so what is proved holds for
+# every layout of row groups.
+
+class Tab:
+    def __init__(self, src, lo, ln):
+        self.src, self.lo, self.ln = src, SNum(z3.simplify(to_term(lo))), SNum(z3.simplify(to_term(ln)))
+
+    def vc_len(self):
+        return self.ln
+
+    def __getitem__(self, sl):
+        if not isinstance(sl, slice) or sl.step is not None:
+            raise core.Unsupported("table index other than a slice")
+        lo, ln = SArr._slice_bounds(sl, self.ln)
+        return Tab(self.src, self.lo + SNum(lo), SNum(ln))
+
+    def column(self, name):
+        return RC._Col(self.src, name, self.lo, self.ln)
+
+
+class RangeDeque:
+    """deque of adjacent tables covering the rows [lo, hi) with k tables"""
+
+    def __init__(self, ctx, src, lo, hi, k):
+        self.ctx, self.src, self.lo, self.hi, self.k = ctx, src, lo, hi, k
+
+    def wf(self):
+        return And(self.lo <= self.hi, self.k >= 0, Implies(self.k == 0, self.lo == self.hi))
+
+    def vc_havoc(self, c, name):
+        self.lo, self.hi, self.k = c.fresh_int(name + "_lo", lo=0), c.fresh_int(name + "_hi", lo=0), c.fresh_int(name + "_k", lo=0)
+
+    def vc_snapshot(self):
+        return RangeDeque(self.ctx, self.src, self.lo, self.hi, self.k)
+
+    def append(self, tab):
+        self.ctx.check("C18/ParquetReader/pre@cache.append:the_table_continues_the_cached_rows", And(isinstance(tab, Tab), tab.lo == self.hi))
+        self.hi = self.hi + tab.ln
+        self.k = self.k + 1
+
+    def appendleft(self, tab):
+        self.ctx.check("C18/ParquetReader/pre@cache.appendleft:the_table_ends_where_the_cached_rows_start", And(isinstance(tab, Tab), tab.lo + tab.ln == self.lo))
+        self.lo = tab.lo
+        self.k = self.k + 1
+
+    def popleft(self):
+        if not self.ctx.branch((self.k > 0).t):
+            raise IndexError("pop from an empty deque")
+        ln = self.ctx.fresh_int("popped_rows", lo=0)
+        self.ctx.assume(z3.And(ln.t <= (self.hi - self.lo).t, z3.Implies((self.k == 1).t, ln.t == (self.hi - self.lo).t)), "contract:cache abstraction")
+        t = Tab(self.src, self.lo, ln)
+        self.lo = self.lo + ln
+        self.k = self.k - 1
+        return t
+
+
+class TabList:
+    """list of adjacent tables (only append is used): covers [lo, lo + ln)"""
+
+    def __init__(self, src, lo, ln, count):
+        self.src, self.lo, self.ln, self.count = src, lo, ln, count
+
+    def append(self, tab):
+        Ctx.cur.check("C18/ParquetReader/pre@groups.append:adjacent", And(isinstance(tab, Tab), tab.lo == self.lo + self.ln))
+        self.ln = self.ln + tab.ln
+        self.count = self.count + 1
+
+
+class ParquetFile:
+    def __init__(self, ctx, src, n):
+        self.ctx, self.src, self.n = ctx, src, n
+        self.G = ctx.fresh_int("num_row_groups", lo=0, size=True)
+        self.gstart = z3.Function("row_group_start", z3.IntSort(), z3.IntSort())
+        i = z3.Int("i?rg")
+        ctx.assume(z3.And(self.gstart(0) == 0, self.gstart(self.G.t) == n.t), "pyarrow:row groups partition the file")
+        j = z3.Int("j?rg")
+        ctx.assume(z3.ForAll([i, j], z3.Implies(z3.And(i >= 0, i <= j, j <= self.G.t), self.gstart(i) <= self.gstart(j)),
+                             patterns=[z3.MultiPattern(self.gstart(i), self.gstart(j))]), "pyarrow:row groups partition the file (group starts are monotone)")
+        self.log = []
+
+    def read_row_group(self, idx, columns):
+        self.ctx.trust("pyarrow: read_row_group(i) returns rows [gstart(i), gstart(i+1)); ArrowException iff i >= number of groups")
+        it = to_term(idx)
+        if not self.ctx.branch(z3.And(it >= 0, it < self.G.t)):
+            raise self.exc("row group index out of range")
+        if getattr(self, "guard", None):
+            self.guard()
+        self.log.append((SNum(it), list(columns)))
+        return Tab(self.src, SNum(self.gstart(it)), SNum(self.gstart(it + 1) - self.gstart(it)))
+
+
+class ArrowExc(Exception):
+    pass
+
+
+def concat_tables(groups):
+    Ctx.cur.trust("pyarrow: concat_tables of adjacent tables is their union")
+    if isinstance(groups, TabList):
+        if not Ctx.cur.branch((groups.count > 0).t):
+            raise ValueError("Must pass at least one table")
+        return Tab(groups.src, groups.lo, groups.ln)
+    if not groups:
+        raise ValueError("Must pass at least one table")
+    for a, b in zip(groups, groups[1:]):
+        Ctx.cur.check("C18/ParquetReader/pre@concat_tables:adjacent", a.lo + a.ln == b.lo)
+    ln = groups[0].ln
+    for g in groups[1:]:
+        ln = ln + g.ln
+    return Tab(groups[0].src, groups[0].lo, ln)
+
+
+def make_parquet(ctx, w, z, p, pos_is_chunk_start=True):
+    """ParquetReader after k chunks: rows [0, k*c) delivered; cache = [k*c, hi), hi = start of the next unread group"""
+    R = mod("yaw.catalog.readers")
+    r, n, c = RC.make_reader(ctx, "ParquetReader", w, z, p)
+    ctx.assume(z3.Or(c.t >= 1, n.t == 0), "type:reader")
+    src = RC.Source(ctx, n)
+    f = ParquetFile(ctx, src, n)
+    f.exc = ArrowExc
+    r._file = f
+    k = ctx.fresh_int("k", lo=0, size=True)
+    ctx.inputs["k"] = ("int", k)
+    ctx.assume((k * c < n).t, "pre:__next__ delegates only when not exhausted")
+    r._num_samples = (k + 1) * c
+    gi = ctx.fresh_int("group_idx", lo=0)
+    ctx.assume(gi.t <= f.G.t, "type:ParquetReader invariant")
+    r._group_idx = gi
+    hi = SNum(f.gstart(gi.t))
+    kq = ctx.fresh_int("tables_in_cache", lo=0)
+    dq = RangeDeque(ctx, src, k * c, hi, kq)
+    ctx.assume(dq.wf().t, "type:ParquetReader invariant (cache = rows [k*c, start of the next unread group))")
+    r._group_cache = dq
+    return r, n, c, k, f, dq, src
+
+
+def parquet_patches(pt):
+    R = mod("yaw.catalog.readers")
+    import types
+    pt.set(R, "ArrowException", ArrowExc)
+    pt.set(R, "pa", types.SimpleNamespace(concat_tables=concat_tables))
+
+
+LOAD_SITE = "yaw.catalog.readers:ParquetReader._load_groups#1"
+EXTRACT_SITE = "yaw.catalog.readers:ParquetReader._extract_chunk#1"
+
+
+@unit(P, "ParquetReader._get_group_cache_size", fuc=["yaw.catalog.readers:ParquetReader._get_group_cache_size"])
+def u_pq_size(ctx):
+    """the number of rows in the cache (sum of the table lengths), for a cache of any length"""
+    R = mod("yaw.catalog.readers")
+    from pyvc.builtins_shim import SSeq
+    from pyvc import sigma
+    m = ctx.fresh_int("tables", lo=0, size=True)
+    ln = z3.Function("table_rows", z3.IntSort(), z3.IntSort())
+    r = R.ParquetReader.__new__(R.ParquetReader)
+    r._group_cache = SSeq(m, lambda t: Tab(None, 0, SNum(ln(to_term(t)))))
+    ctx.canary()
+    got = expect_no_exception(ctx, call(r._get_group_cache_size), "C18/ParquetReader._get_group_cache_size")
+    want = sigma.sum_iterable(SSeq(m, lambda t: SNum(ln(to_term(t)))), 0)
+    ctx.check("C18/ParquetReader._get_group_cache_size/post:sum_of_the_table_lengths", got == want)
+
+
+@unit(P, "ParquetReader._load_groups", fuc=["yaw.catalog.readers:ParquetReader._load_groups"], trusted=["pyarrow read_row_group"])
+def u_pq_load(ctx):
+    """reads the next unread row groups, each once and in order, only while the cache holds less than a chunk; afterwards the
+    cache holds at least a chunk or the file is exhausted; the cached rows still start at the first undelivered row"""
+    r, n, c, k, f, dq, src = make_parquet(ctx, True, False, False)
+    R = mod("yaw.catalog.readers")
+    gi0, hi0 = r._group_idx, dq.hi
+    name = "C18/ParquetReader._load_groups"
+
+    def inv(L):
+        return And(dq.wf(), dq.lo == k * c, L.self._group_idx >= gi0, L.self._group_idx <= f.G, dq.hi == SNum(f.gstart(to_term(L.self._group_idx))))
+
+    f.guard = lambda: ctx.check(f"{name}/pre@read_row_group:only_while_the_cache_holds_less_than_a_chunk", dq.hi - dq.lo < c,
+                                detail="a row group is requested although a full chunk is already cached")
+    with Patches() as pt, use_loops({LOAD_SITE: LoopSpec(inv=inv, fresh={"self": lambda L: _fresh_reader(L, r)})}):
+        parquet_patches(pt)
+        pt.set(R.ParquetReader, "_get_group_cache_size", lambda self: self._group_cache.hi - self._group_cache.lo)
+        ctx.ghost.setdefault("loop_ghosts", {})[LOAD_SITE] = [dq]
+        ctx.canary()
+        expect_no_exception(ctx, call(R.ParquetReader._load_groups, r), name)
+    r2 = ctx.ghost.get("reader_after", r)
+    ctx.check(f"{name}/post:a_full_chunk_or_the_end_of_the_file", Or(dq.hi - dq.lo >= c, dq.hi == n))
+    ctx.check(f"{name}/post:cache_still_starts_at_the_first_undelivered_row", And(dq.lo == k * c, dq.wf()))
+    for idx, cols in f.log:
+        ctx.check(f"{name}/post:only_the_configured_columns_are_read", cols == list(r._columns.values()))
+
+
+def _fresh_reader(L, r):
+    """the reader with a havoc'd row-group index (everything else is not assigned in the loops)"""
+    import copy
+    r2 = copy.copy(L.self) if False else L.self
+    r2._group_idx = L.ctx.fresh_int("group_idx", lo=0)
+    L.ctx.ghost["reader_after"] = r2
+    return r2
+
+
+@unit(P, "ParquetReader._extract_chunk", fuc=["yaw.catalog.readers:ParquetReader._extract_chunk"], trusted=["pyarrow concat_tables / slice"])
+def u_pq_extract(ctx):
+    """returns exactly the first min(c, cached) rows of the cache in order; the rest goes back to the front of the cache"""
+    r, n, c, k, f, dq, src = make_parquet(ctx, True, False, False)
+    R = mod("yaw.catalog.readers")
+    ctx.assume(Or(dq.hi - dq.lo >= c, dq.hi == n).t, "pre:_load_groups.post")
+    lo0, hi0 = dq.lo, dq.hi
+    name = "C18/ParquetReader._extract_chunk"
+
+    def inv(L):
+        g = L.groups
+        if isinstance(g, list):
+            cov = And(L.num_records == 0, len(g) == 0) if not g else False
+            return And(dq.wf(), dq.lo == lo0, dq.hi == hi0, cov)
+        return And(dq.wf(), g.lo == lo0, g.ln == L.num_records, L.num_records >= 0, g.count >= 0, Implies(g.count == 0, g.ln == 0),
+                   dq.lo == lo0 + L.num_records, dq.hi == hi0)
+    spec = LoopSpec(inv=inv, fresh={"groups": lambda L: TabList(src, lo0, L.ctx.fresh_int("rows_taken", lo=0), L.ctx.fresh_int("tables_taken", lo=0))},
+                    keep=("self",))
+    with Patches() as pt, use_loops({EXTRACT_SITE: spec}):
+        parquet_patches(pt)
+        ctx.ghost.setdefault("loop_ghosts", {})[EXTRACT_SITE] = [dq]
+        ctx.canary()
+        res = call(R.ParquetReader._extract_chunk, r)
+    if isinstance(res, Raised):
+        ctx.check(f"{name}/post_exc:only_without_any_cached_row", And(isinstance(res.exc, ValueError), lo0 == hi0),
+                  detail=f"{type(res.exc).__name__}: {res.exc}")
+        return
+    take = Min(c, hi0 - lo0)
+    ctx.check(f"{name}/post:the_first_rows_of_the_cache", And(isinstance(res, Tab), res.lo == lo0, res.ln == take))
+    ctx.check(f"{name}/post:the_rest_stays_cached_in_order", And(dq.wf(), dq.lo == lo0 + take, dq.hi == hi0))
+
+
+@unit(P, "ParquetReader._get_next_chunk", fuc=["yaw.catalog.readers:ParquetReader._get_next_chunk"], cases=RC.OPTIONAL_COLUMN_CASES)
+def u_pq_next(ctx, w, z, p):
+    """chunk k holds the rows [k*c, min((k+1)*c, n)) of the configured columns; the class invariant (cache = rows from the first
+    undelivered row to the next unread group) is re-established"""
+    r, n, c, k, f, dq, src = make_parquet(ctx, w, z, p)
+    R = mod("yaw.catalog.readers")
+    calls = []
+    name = "C18/ParquetReader._get_next_chunk"
+
+    def load(self):
+        # contract of _load_groups (u_pq_load): reads following groups until a chunk is cached or the file ends
+        gi = ctx.fresh_int("group_idx_after", lo=0)
+        ctx.assume(z3.And(gi.t >= to_term(self._group_idx), gi.t <= f.G.t), "contract:_load_groups")
+        self._group_idx = gi
+        dq.hi = SNum(f.gstart(gi.t))
+        dq.k = ctx.fresh_int("tables_after_load", lo=0)
+        ctx.assume(And(dq.wf(), Or(dq.hi - dq.lo >= c, dq.hi == n)).t, "contract:_load_groups")
+
+    def extract(self):
+        take = Min(c, dq.hi - dq.lo)
+        if not ctx.branch((dq.hi > dq.lo).t):
+            raise ValueError("Must pass at least one table")
+        t = Tab(src, dq.lo, take)
+        dq.lo = dq.lo + take
+        dq.k = ctx.fresh_int("tables_after_extract", lo=0)
+        ctx.assume(dq.wf().t, "contract:_extract_chunk")
+        return t
+    with Patches() as pt:
+        parquet_patches(pt)
+        RC.stub_datachunk_create(ctx, pt, calls)
+        pt.set(R.ParquetReader, "_load_groups", load)
+        pt.set(R.ParquetReader, "_extract_chunk", extract)
+        ctx.canary()
+        res = expect_no_exception(ctx, call(R.ParquetReader._get_next_chunk, r), name)
+    cols = RC.columns_for(w, z, p)
+    ctx.check(f"{name}/post:one_chunk_created", len(calls) == 1 and res is calls[0])
+    if calls:
+        tok = calls[0]
+        ctx.check(f"{name}/post:columns", set(tok.kwargs) == set(cols))
+        for attr, arr in tok.kwargs.items():
+            nm, lo, ln = arr.meta["rows"]
+            ctx.check(f"{name}/post:rows[{attr}]", And(nm == cols[attr], lo == k * c, ln == Min(c, n - k * c)))
+    ctx.check(f"{name}/post:invariant_for_the_next_chunk", And(dq.wf(), dq.lo == Min((k + 1) * c, n), dq.hi == SNum(f.gstart(to_term(r._group_idx))), r._group_idx <= f.G))
